@@ -43,7 +43,8 @@ class ConcMixin(object):
             return dict(spec=fam, cin=concrt.scenario_coq(scn),
                         cobs='{| co_events := []; co_wire := []; co_final := []; '
                              'co_parse_ok := false; co_violations := 1%nat; co_fired := 0%nat; '
-                             'co_conn := OPEN; co_inv := (9, 9, 9)%nat |}',
+                             'co_conn := OPEN; co_inv := (9, 9, 9)%nat; co_btags := []; '
+                             'co_delivered := [] |}',
                         meta=dict(conc=fam, scenario=_plain(scn), seed=seed, line_p=line_p,
                                   harness_error=repr(why), profile='conc:' + fam, steps=[]))
         return dict(spec=fam, cin=concrt.scenario_coq(scn), cobs=obs,
@@ -202,6 +203,65 @@ def gen_fault(rnd):
 def gen_openfault(rnd):
     """C06: the peer closes the socket right after accepting it, open() in progress."""
     return dict(nchan=0, threads=[[(0, ('conn_open',))]], no_setup=True, eof_on_connect=True)
+
+
+def gen_tags(rnd):
+    """C14: threads consume / cancel / stop_consuming on shared channels; the broker may cancel."""
+    nchan = rnd.choice([1, 1, 2])
+    pre = [(1, b'pre%d' % k) for k in range(rnd.choice([0, 1, 2]))]
+    threads = []
+    for t in range(rnd.choice([2, 2, 3])):
+        ops = []
+        mine = []
+        for j in range(rnd.randrange(1, 4)):
+            c = rnd.randrange(1, nchan + 1)
+            r = rnd.random()
+            if r < 0.5 or not (mine or pre):
+                tag = b't%d_%d' % (t, j)
+                ops.append((c, ('consume', tag)))
+                mine.append((c, tag))
+            elif r < 0.8:
+                cc, tag = rnd.choice(mine + pre)
+                ops.append((cc, ('cancel', tag)))
+                if (cc, tag) in mine:
+                    mine.remove((cc, tag))
+            else:
+                ops.append((c, ('stop',)))
+        threads.append(ops)
+    ev = []
+    if pre and rnd.random() < 0.4:
+        ev = [(rnd.randrange(0, 4), ('bcancel', 1, pre[0][1]))]
+    return dict(nchan=nchan, threads=threads, consumers=pre, events=ev)
+
+
+def gen_consume(rnd):
+    """C03: one thread drains n deliveries while the broker sends them (bodies of 0-3 frames)
+    mixed with returned messages, and other threads publish / ack / declare on the same channel."""
+    n = rnd.randrange(1, 6)
+    ev = []
+    k = 0
+    for j in range(n):
+        ev.append((k, ('deliver', 1, b'ct', bytes([97 + j]) * rnd.choice([0, 1, 5, 1016, 1017, 2100]))))
+        if rnd.random() < 0.3:
+            ev.append((k, ('return', 1, 312)))
+        k += rnd.choice([0, 0, 1])
+    threads = [[(1, ('drain', n))]]
+    for t in range(rnd.choice([0, 1, 2])):
+        threads.append([(1, rnd.choice([('publish', b'Ap', False), ('ack',), ('declare', b'd%d' % t)]))
+                        for _ in range(rnd.randrange(1, 3))])
+    return dict(nchan=1, threads=threads, consumers=[(1, b'ct')], events=ev, frame_max=1024,
+                max_steps=12000)
+
+
+def gen_returns(rnd):
+    """C07: 1-3 returned messages arrive while 2-3 threads call into the same channel."""
+    threads = []
+    for t in range(rnd.choice([2, 2, 3])):
+        threads.append([(1, rnd.choice([('declare', b'r%d%d' % (t, j)), ('check',), ('ack',),
+                                        ('publish', b'Ap', False)]))
+                        for j in range(rnd.randrange(1, 4))])
+    ev = [(rnd.randrange(0, 3), ('return', 1, rnd.choice([312, 313]))) for _ in range(rnd.choice([1, 2, 3]))]
+    return dict(nchan=1, threads=threads, events=ev)
 
 
 def gen_wire(rnd):
